@@ -80,7 +80,7 @@ def deep_recursion_family():
     # the innermost activation calls a function that needs no slot at all, at every depth around the limit
     for per, shape in ((2, "functie f(n) { als n == 0 { antwoord z() } f(n - 1) }"), (3, "functie f(n) { als n == 0 { antwoord z() } 1 + (f(n - 1)) }"),
                        (2, "functie f(n) { als n == 0 { antwoord [z(), z()][1] } f(n - 1) }")):
-        for depth in range(65536 // per - 4, 65536 // per + 5):
+        for depth in list(range(65536 // per - 40, 65536 // per + 41)) + list(range(65536 // (per - 1) - 12, 65536 // (per - 1) + 13)):
             src = "functie z() { 3 } %s f(%d)" % (shape, depth)
             out.append((src, 3 + (depth if per == 3 else 0)))
     return out
